@@ -3,6 +3,7 @@
 from ..rules import r_cap
 from ..tables import cap_tables
 from . import common
+from .c38 import check_compaction
 
 
 def run(db, res, tier):
@@ -15,6 +16,7 @@ def run(db, res, tier):
     scope = scope + [lc for lc in all_lcs if (lc.ev.loc, lc.kv.text) not in sigs]
   det = r_cap.overflow_detectors(scope + all_lcs)
   n = r_cap.check_allocations(res, scope, det)
+  check_compaction(db, res)  # active-DOF capacity (sequential counter form)
   res.floor("slot allocations", n, 60)
   res.floor("overflow detectors (counters)", len(det), 5)
   res.rule_text = "R-CAP: for every slot = atomic_add(counter, n) whose result indexes or addresses an array: (O1) a dominating comparison bounds the slot by a capacity (or the allocation is tabled as bounded by construction); (O2) the surviving condition is equivalent to slot + n <= cap, so a block that fits exactly is not dropped; (O3) a statement that sets an overflow bit compares the same counter with the same capacity"
